@@ -2,13 +2,14 @@
 //! E-in over pairs of in-order streams (every interleaving) on real two-window RSP engines
 //! (SingleThread; policies Wait and Steal; with and without static data; window blocks sharing or
 //! not sharing vocabulary), oracle = per-window probe windows + BGP evaluation.
+use crate::explore::sched;
 use crate::infra::{guarded, Ctx, PropDef, ShardOut};
 use crate::reference::sparql_ast::*;
 use crate::reference::sparql_eval::{eval_group, Dataset, View};
 use kolibrie::rsp::s2r::{CSPARQLWindow, ContentContainer, Report, ReportStrategy, Tick};
 use kolibrie::rsp_engine::{OperationMode, QueryExecutionMode, RSPBuilder, RSPEngine, ResultConsumer, SimpleR2R};
 use serde_json::{json, Value};
-use shared::query::SyncPolicy;
+use shared::query::{Fallback, SyncPolicy};
 use shared::triple::Triple;
 use std::collections::{BTreeMap, BTreeSet};
 use std::sync::{Arc, Mutex};
@@ -16,9 +17,9 @@ use std::sync::{Arc, Mutex};
 pub const DEF: PropDef = PropDef {
     id: "C11",
     level: "exploration",
-    rule: "cases = (vocabulary variant, window parameters, sync policy, static data yes/no, two in-order streams, interleaving): two-window engines built with RSPBuilder in SingleThread mode; variants: both blocks over the same predicate (shared vocabulary), disjoint predicates, and blocks sharing a join variable; (width,slide) of each window from {(2,1),(2,2)}; policies Wait and Steal; static background data (a triple over the same predicate) present or not, with a static pattern in the WHERE clause; streams of <=3 items each over a 2-triple alphabet per stream with gaps {1} (thorough {1,2}); EVERY interleaving of the two streams. Oracle, per emitted row and per window i: the row restricted to block i's variables must be an answer of block i over SOME content that a probe window with window i's parameters, fed only stream i, has reported so far; the restriction to the static variables must be an answer over the static data alone. A failing row is tagged explained_by=other_windows_content_visible when it becomes an answer once the contents reported by the OTHER window (or the static data) are added to window i's content - the shared-store defect - and explained_by=nothing otherwise. Non-trivial = case in which both windows reported a non-empty content; distinct by case.",
+    rule: "single-thread cases = (vocabulary variant, window parameters, sync policy, static data yes/no, two in-order streams, interleaving): two-window engines built with RSPBuilder in SingleThread mode; variants: both blocks over the same predicate (shared vocabulary), disjoint predicates, and blocks sharing a join variable; (width,slide) of each window from {(2,1),(2,2)}; policies Wait and Steal; static background data (a triple over the same predicate) present or not, with a static pattern in the WHERE clause; streams of <=3 items each over a 2-triple alphabet per stream with gaps {1} (thorough {1,2}); EVERY interleaving of the two streams. Oracle, per emitted row and per window i: the row restricted to block i's variables must be an answer of block i over SOME content that a probe window with window i's parameters, fed only stream i, has reported so far; the restriction to the static variables must be an answer over the static data alone. A failing row is tagged explained_by=other_windows_content_visible when it becomes an answer once the contents reported by the OTHER window (or the static data) are added to window i's content - the shared-store defect - and explained_by=nothing otherwise. Multi-thread family (hook H1 baton scheduler with one worker per window and the coordinator thread, channels named per window plus the results channel, deadline expiry of the coordinator's timed receive enumerated as a scheduling choice): disjoint- and shared-vocabulary variants x policies {Wait, Steal, Timeout+Steal, Timeout+Drop} x every interleaving of two streams of <=2 items each (quick: <=3 items in total) under EVERY schedule with <=1 (thorough 2) preemptions; every emitted row must bind the variables of both blocks and each block part must be an answer over a content its own window reports. Non-trivial = single-thread case in which both windows reported a non-empty content, multi-thread case that emits rows; distinct by case.",
     assumptions: &[
-        "MultiThread is not quantified by the property; stop()'s flush is excluded (engines are dropped)",
+        "stop()'s flush is excluded (engines are dropped); multi-thread scheduling points: channel sends/receives, thread start/end, after each window processor, the coordinator's timed receive (deadline expiry is a choice), no points inside mutexes",
         "the probe windows are real CSPARQLWindows (C09's subject)",
         "'reported so far' is taken generously (any content the probe reported up to and including the current stream item), so the oracle is not stricter than the statement",
     ],
@@ -338,6 +339,225 @@ fn record(out: &mut ShardOut, case: &Case) {
     }
 }
 
+
+// --- MultiThread mode under the baton scheduler (hook H1): worker per window + coordinator ---------
+
+#[derive(Clone, Copy, Debug, PartialEq, Eq)]
+pub enum MtPolicy {
+    Wait,
+    Steal,
+    TimeoutSteal,
+    TimeoutDrop,
+}
+
+pub const MT_POLICIES: [MtPolicy; 4] = [MtPolicy::Wait, MtPolicy::Steal, MtPolicy::TimeoutSteal, MtPolicy::TimeoutDrop];
+
+impl MtPolicy {
+    fn name(&self) -> &'static str {
+        match self {
+            MtPolicy::Wait => "wait",
+            MtPolicy::Steal => "steal",
+            MtPolicy::TimeoutSteal => "timeout_steal",
+            MtPolicy::TimeoutDrop => "timeout_drop",
+        }
+    }
+    fn sync(&self) -> SyncPolicy {
+        // the real duration is irrelevant under the scheduler: the timeout seam decides when it fires
+        let d = std::time::Duration::from_millis(50);
+        match self {
+            MtPolicy::Wait => SyncPolicy::Wait,
+            MtPolicy::Steal => SyncPolicy::Steal,
+            MtPolicy::TimeoutSteal => SyncPolicy::Timeout { duration: d, fallback: Fallback::Steal },
+            MtPolicy::TimeoutDrop => SyncPolicy::Timeout { duration: d, fallback: Fallback::Drop },
+        }
+    }
+}
+
+fn build_mt(variant: &Variant, w1: (usize, usize), w2: (usize, usize), policy: MtPolicy) -> Result<(RSPEngine<Triple, Row>, Arc<Mutex<Vec<Row>>>), String> {
+    let sink: Arc<Mutex<Vec<Row>>> = Arc::new(Mutex::new(Vec::new()));
+    let s2 = Arc::clone(&sink);
+    let consumer = ResultConsumer {
+        function: Arc::new(move |r: Row| {
+            s2.lock().unwrap().push(r);
+        }),
+    };
+    let q = format!(
+        "REGISTER RSTREAM <http://out/stream> AS SELECT * FROM NAMED WINDOW :w1 ON :s1 [RANGE {} STEP {}] FROM NAMED WINDOW :w2 ON :s2 [RANGE {} STEP {}] WHERE {{ WINDOW :w1 {{ {} }} WINDOW :w2 {{ {} }} }}",
+        w1.0,
+        w1.1,
+        w2.0,
+        w2.1,
+        pat(&variant.block1),
+        pat(&variant.block2)
+    );
+    let q: &'static str = Box::leak(q.into_boxed_str());
+    let r2r = Box::new(SimpleR2R::with_execution_mode(QueryExecutionMode::Volcano));
+    let engine = RSPBuilder::new().add_rsp_ql_query(q).add_consumer(consumer).add_r2r(r2r).set_operation_mode(OperationMode::MultiThread).set_sync_policy(policy.sync()).build()?;
+    Ok((engine, sink))
+}
+
+/// one execution under a schedule prefix; returns the emitted rows and the trace
+fn run_mt(variant: usize, w1: (usize, usize), w2: (usize, usize), policy: MtPolicy, feed: &Feed, prefix: &[usize]) -> Result<(Vec<BTreeMap<String, String>>, sched::Trace), String> {
+    let var = variants()[variant].clone();
+    let feed2 = feed.clone();
+    let rows_out: Arc<Mutex<Vec<BTreeMap<String, String>>>> = Arc::new(Mutex::new(Vec::new()));
+    let ro = Arc::clone(&rows_out);
+    let trace = sched::run_controlled(prefix, move || {
+        let (mut engine, sink) = build_mt(&var, w1, w2, policy).expect("engine build");
+        let tr1: Vec<Vec<Triple>> = var.alpha1.iter().map(|t| engine.parse_data(&line(t))).collect();
+        let tr2: Vec<Vec<Triple>> = var.alpha2.iter().map(|t| engine.parse_data(&line(t))).collect();
+        for (stream, ai, ts) in &feed2 {
+            let (name, trs) = if *stream == 0 { (":s1", &tr1) } else { (":s2", &tr2) };
+            for t in &trs[*ai] {
+                engine.add_to_stream(name, t.clone(), *ts);
+            }
+        }
+        sched::main_wait_quiescent();
+        *ro.lock().unwrap() = sink.lock().unwrap().iter().map(norm).collect();
+        drop(engine);
+    })?;
+    let rows = rows_out.lock().unwrap().clone();
+    Ok((rows, trace))
+}
+
+fn mt_case_json(variant: usize, w1: (usize, usize), w2: (usize, usize), policy: MtPolicy, feed: &Feed, schedule: &[usize]) -> Value {
+    json!({"mode": "multi", "variant": variants()[variant].name, "w1": [w1.0, w1.1], "w2": [w2.0, w2.1], "policy": policy.name(), "feed": feed, "schedule": schedule})
+}
+
+/// oracle for one multi-thread execution: every emitted row binds all variables of both blocks and
+/// each block part is an answer over some content the probe window of that block reports over
+/// the whole feed (generous: the interleaving of worker progress with the feed is schedule-dependent)
+fn mt_verdicts(variant: usize, w1: (usize, usize), w2: (usize, usize), feed: &Feed, rows: &[BTreeMap<String, String>]) -> Vec<Verdict> {
+    let vars = variants();
+    let var = &vars[variant];
+    let (mut p1, c1) = probe(w1);
+    let (mut p2, c2) = probe(w2);
+    for (stream, ai, ts) in feed {
+        if *stream == 0 {
+            p1.add_to_window(*ai, *ts);
+        } else {
+            p2.add_to_window(*ai, *ts);
+        }
+    }
+    let contents1: Vec<BTreeSet<(String, String, String)>> = c1.lock().unwrap().iter().map(|s| s.iter().map(|i| var.alpha1[*i].clone()).collect()).collect();
+    let contents2: Vec<BTreeSet<(String, String, String)>> = c2.lock().unwrap().iter().map(|s| s.iter().map(|i| var.alpha2[*i].clone()).collect()).collect();
+    let all1: BTreeSet<_> = contents1.iter().flatten().cloned().collect();
+    let all2: BTreeSet<_> = contents2.iter().flatten().cloned().collect();
+    let (v1, v2) = (block_vars(&var.block1), block_vars(&var.block2));
+    let mut out = Vec::new();
+    for row in rows {
+        for (wi, (block, bv, own, other)) in [(&var.block1, &v1, &contents1, &all2), (&var.block2, &v2, &contents2, &all1)].into_iter().enumerate() {
+            let part: BTreeMap<String, String> = row.iter().filter(|(k, _)| bv.contains(*k)).map(|(k, v)| (k.clone(), v.clone())).collect();
+            if part.len() != bv.len() {
+                out.push(Verdict { symptom: "row_misses_block_variable", detail: format!("emitted row {:?} does not bind the variables {:?} of WINDOW block {}: it is not a join of what both windows reported", row, bv, wi + 1), explained: false });
+                continue;
+            }
+            if !own.iter().any(|content| answers(block, content).contains(&part)) {
+                let mut widened: BTreeSet<(String, String, String)> = own.iter().flatten().cloned().collect();
+                widened.extend(other.iter().cloned());
+                let explained = answers(block, &widened).contains(&part);
+                out.push(Verdict { symptom: "block_answer_not_from_own_window", detail: format!("emitted row {:?}: part {:?} for WINDOW block {} is not an answer over any content window {} reports ({:?})", row, part, wi + 1, wi + 1, own), explained });
+            }
+        }
+    }
+    out
+}
+
+fn record_mt(out: &mut ShardOut, ctx: &Ctx, variant: usize, w1: (usize, usize), w2: (usize, usize), policy: MtPolicy, feed: &Feed, bound: usize) {
+    let mut first_rows: Option<usize> = None;
+    let n = sched::dfs(
+        bound,
+        || ctx.expired(),
+        |prefix| {
+            out.evaluations += 1;
+            out.count("mt_schedules_explored", 1);
+            let res = guarded(|| run_mt(variant, w1, w2, policy, feed, prefix));
+            let tagv = |explained: bool| vec![format!("variant={}", variants()[variant].name), format!("policy={}", policy.name()), "mode=multi".to_string(), format!("explained_by={}", if explained { "other_windows_content_visible" } else { "nothing" })];
+            match res {
+                Err(p) => {
+                    out.fail(mt_case_json(variant, w1, w2, policy, feed, prefix), "panic", p, tagv(false));
+                    None
+                }
+                Ok(Err(e)) => {
+                    if e.contains("deadlock") {
+                        out.fail(mt_case_json(variant, w1, w2, policy, feed, prefix), "deadlock", e, tagv(false));
+                    } else if e.contains("stuck") {
+                        match guarded(|| run_mt(variant, w1, w2, policy, feed, prefix)) {
+                            Ok(Err(e2)) if e2.contains("stuck") => out.fail(mt_case_json(variant, w1, w2, policy, feed, prefix), "thread_never_reaches_next_point", format!("{} (reproduced twice)", e), tagv(false)),
+                            _ => out.machinery_errors.push(format!("one-off scheduler stall: {}", e)),
+                        }
+                    } else {
+                        out.machinery_errors.push(format!("scheduler error on {:?} prefix {:?}: {}", feed, prefix, e));
+                    }
+                    None
+                }
+                Ok(Ok((rows, trace))) => {
+                    out.max("max_mt_scheduling_points", trace.points.len() as u64);
+                    out.outcome(&(variant, policy.name(), rows.len()));
+                    if first_rows.is_none() {
+                        first_rows = Some(rows.len());
+                    }
+                    out.count("mt_rows_emitted", rows.len() as u64);
+                    for vd in mt_verdicts(variant, w1, w2, feed, &rows) {
+                        // determinism before verdict: the same schedule must fail again
+                        let again = guarded(|| run_mt(variant, w1, w2, policy, feed, &trace.choices));
+                        match again {
+                            Ok(Ok((r2, _))) if !mt_verdicts(variant, w1, w2, feed, &r2).is_empty() => {
+                                out.fail(mt_case_json(variant, w1, w2, policy, feed, &trace.choices), vd.symptom, vd.detail, tagv(vd.explained));
+                            }
+                            _ => out.machinery_errors.push(format!("schedule replay diverged for {:?} {:?}", feed, trace.choices)),
+                        }
+                        break;
+                    }
+                    Some(trace)
+                }
+            }
+        },
+    );
+    out.max("max_mt_schedules_per_case", n);
+    if first_rows.map_or(false, |r| r > 0) {
+        out.nontrivial(&format!("mt {:?} {:?} {:?} {:?} {:?}", variant, w1, w2, policy, feed));
+    }
+}
+
+fn run_multi_thread_family(ctx: &Ctx, out: &mut ShardOut, idx: &mut u64) {
+    if !sched::available() {
+        return;
+    }
+    let seqs = stream_seqs(2, &[1]);
+    let bound = if ctx.thorough() { 2 } else { 1 };
+    for variant in [1usize, 0] {
+        // disjoint vocabulary first (no known-finding noise), then shared vocabulary
+        for (w1, w2) in [((2usize, 1usize), (2usize, 1usize)), ((2, 2), (2, 1))] {
+            for policy in MT_POLICIES {
+                for a in &seqs {
+                    for b in &seqs {
+                        if a.is_empty() && b.is_empty() {
+                            continue;
+                        }
+                        for feed in interleavings(a, b) {
+                            *idx += 1;
+                            if !ctx.mine(*idx) {
+                                continue;
+                            }
+                            if !ctx.thorough() && (a.len() + b.len() > 3 || w1 != w2) {
+                                continue; // quick: feeds of <= 3 items, equal window parameters
+                            }
+                            if ctx.expired() {
+                                if !out.capped.iter().any(|c| c.contains("multi-thread")) {
+                                    out.capped.push("wall-clock cap hit in the multi-thread family".into());
+                                }
+                                return;
+                            }
+                            record_mt(out, ctx, variant, w1, w2, policy, &feed, bound);
+                        }
+                    }
+                }
+            }
+        }
+    }
+}
+
 fn run(ctx: &Ctx) -> ShardOut {
     let mut out = ShardOut::default();
     let maxlen = 3;
@@ -373,6 +593,7 @@ fn run(ctx: &Ctx) -> ShardOut {
             }
         }
     }
+    run_multi_thread_family(ctx, &mut out, &mut idx);
     out
 }
 
@@ -385,6 +606,29 @@ fn replay(_ctx: &Ctx, case: &Value) -> ShardOut {
     };
     let pair = |k: &str| (case[k][0].as_u64().unwrap_or(2) as usize, case[k][1].as_u64().unwrap_or(1) as usize);
     let feed: Feed = case["feed"].as_array().map(|a| a.iter().filter_map(|p| Some((p.get(0)?.as_u64()? as usize, p.get(1)?.as_u64()? as usize, p.get(2)?.as_u64()? as usize))).collect()).unwrap_or_default();
+    if case["mode"].as_str() == Some("multi") {
+        let policy = MT_POLICIES.iter().copied().find(|p| Some(p.name()) == case["policy"].as_str()).unwrap_or(MtPolicy::Wait);
+        let schedule: Vec<usize> = case["schedule"].as_array().map(|a| a.iter().filter_map(|x| x.as_u64().map(|y| y as usize)).collect()).unwrap_or_default();
+        out.evaluations += 1;
+        match guarded(|| run_mt(variant, pair("w1"), pair("w2"), policy, &feed, &schedule)) {
+            Ok(Ok((rows, trace))) => {
+                for vd in mt_verdicts(variant, pair("w1"), pair("w2"), &feed, &rows) {
+                    let tags = vec![format!("variant={}", vars[variant].name), format!("policy={}", policy.name()), "mode=multi".to_string(), format!("explained_by={}", if vd.explained { "other_windows_content_visible" } else { "nothing" })];
+                    out.fail(mt_case_json(variant, pair("w1"), pair("w2"), policy, &feed, &trace.choices), vd.symptom, vd.detail, tags);
+                    break;
+                }
+            }
+            Ok(Err(e)) => {
+                if e.contains("deadlock") || e.contains("stuck") {
+                    out.fail(case.clone(), if e.contains("deadlock") { "deadlock" } else { "thread_never_reaches_next_point" }, e, vec!["mode=multi".into()]);
+                } else {
+                    out.machinery_errors.push(e);
+                }
+            }
+            Err(p) => out.fail(case.clone(), "panic", p, vec!["mode=multi".into()]),
+        }
+        return out;
+    }
     let c = Case { variant, w1: pair("w1"), w2: pair("w2"), steal: case["policy"].as_str() == Some("steal"), with_static: case["static"].as_bool().unwrap_or(false), feed };
     record(&mut out, &c);
     out
